@@ -346,6 +346,9 @@ pub fn replay(path: &str) -> i32 {
     let text = std::fs::read_to_string(path).unwrap_or_else(|e| mc_kit::machinery_error(&format!("cannot read {path}: {e}")));
     let v: Value = serde_json::from_str(&text).unwrap();
     let case = &v["case"];
+    if case["engine"] == "laws" {
+        return crate::laws::replay_case(case);
+    }
     if case["engine"] == "timers" {
         return crate::timers::replay_case(case);
     }
